@@ -1,9 +1,118 @@
 import Driver.Util
-/-! driver ops of C05 (prefix `c05.`); filled in by the C05 work -/
+import Model.RdataText
+/-! driver ops of C05 (prefix `c05.`): text is a comma-separated list of decimal code points (`-` = empty) -/
 namespace Driver
 open Model
 
+def parseCps (s : String) : Option (List Nat) :=
+  if s = "-" then some [] else (splitOnChar s ',').mapM String.toNat?
+
+def showCps (t : List Nat) : String :=
+  if t.isEmpty then "-" else ",".intercalate (t.map toString)
+
+def okCps : Option (List Nat) → String
+  | some t => "ok " ++ showCps t
+  | none => "err"
+
+def okHex : Option Bytes → String
+  | some b => "ok " ++ toHexP b
+  | none => "err"
+
+def showTok (t : Tok) : String :=
+  (match t.kind with | .ident => "i:" | .quoted => "q:") ++ showCps t.val
+
+def showFV : FV → String
+  | .n v => "u" ++ toString v
+  | .nm n => "n" ++ showName n
+  | .b b => "b" ++ toHexP b
+  | .bl l => "l" ++ ";".intercalate (l.map toHexP)
+
+def parseFV (s : String) : Option FV :=
+  match s.toList with
+  | 'u' :: r => (String.ofList r).toNat?.map .n
+  | 'n' :: r => (parseName (String.ofList r)).map .nm
+  | 'b' :: r => (ofHex (String.ofList r)).map .b
+  | 'l' :: r =>
+    if r.isEmpty then some (.bl []) else ((splitOnChar (String.ofList r) ';').mapM ofHex).map .bl
+  | _ => none
+
+def kv (key : String) (s : String) : Option String :=
+  if s.startsWith (key ++ "=") then some ((s.drop (key.length + 1)).toString) else none
+
+def parseStyle (o r hc hs bc bs : String) : Option Style := do
+  let o ← kv "o" o >>= parseOptName
+  let r ← kv "r" r >>= parseBool
+  let hc ← kv "hc" hc >>= String.toNat?
+  let hs ← kv "hs" hs >>= parseCps
+  let bc ← kv "bc" bc >>= String.toNat?
+  let bs ← kv "bs" bs >>= parseCps
+  some { origin := o, relativize := r, hexChunk := hc, hexSep := hs, b64Chunk := bc, b64Sep := bs }
+
+def splitDump (ts : List String) : Option (List FV × Option FV) :=
+  match ts.span (· ≠ "/") with
+  | (fs, ["/", "-"]) => (fs.mapM parseFV).map fun v => (v, none)
+  | (fs, ["/", t]) => do
+    let v ← fs.mapM parseFV
+    let t ← parseFV t
+    some (v, some t)
+  | _ => none
+
+def showDump (vals : List FV) (tail : Option FV) : String :=
+  " ".intercalate (vals.map showFV ++ ["/", match tail with | some t => showFV t | none => "-"])
+
 def handleC05 : List String → Option String
+  | ["c05.ip4.ntoa", a] => do let a ← ofHex a; some (okCps (ip4Ntoa a))
+  | ["c05.ip4.aton", t] => do let t ← parseCps t; some (okHex (ip4Aton t))
+  | ["c05.ip6.ntoa", a] => do let a ← ofHex a; some (okCps (ip6Ntoa a))
+  | ["c05.ip6.aton", t] => do let t ← parseCps t; some (okHex (ip6Aton t))
+  | ["c05.esc", b] => do let b ← ofHex b; some ("ok " ++ showCps (escapifyR b))
+  | ["c05.unesc", t] => do let t ← parseCps t; some (okCps (unescapeCP t))
+  | ["c05.unescb", t] => do let t ← parseCps t; some (okHex (unescapeBytes t))
+  | ["c05.lex", t] => do
+    let t ← parseCps t
+    some (match lexLine t with
+      | some toks => "ok" ++ String.join (toks.map fun k => " " ++ showTok k)
+      | none => "err")
+  | ["c05.int", base, t] => do
+    let base ← base.toNat?
+    let t ← parseCps t
+    some (match pyInt base t with
+      | some (neg, n) => "ok " ++ (if neg ∧ n ≠ 0 then "-" else "") ++ toString n
+      | none => "err")
+  | ["c05.ttl", t] => do
+    let t ← parseCps t
+    some (match ttlFromText t with | some n => s!"ok {n}" | none => "err")
+  | ["c05.wb", d, chunk, sep] => do
+    let d ← parseCps d; let chunk ← chunk.toNat?; let sep ← parseCps sep
+    some ("ok " ++ showCps (wordbreak d chunk sep))
+  | ["c05.b64enc", b] => do let b ← ofHex b; some ("ok " ++ showCps (b64Encode b))
+  | ["c05.b64dec", t] => do let t ← parseCps t; some (okHex (b64Decode t))
+  | ["c05.hexdec", t] => do let t ← parseCps t; some (okHex (unhexlify t))
+  | ["c05.generic.print", d, hc, hs] => do
+    let d ← ofHex d; let hc ← hc.toNat?; let hs ← parseCps hs
+    some ("ok " ++ showCps (printGeneric { hexChunk := hc, hexSep := hs } d))
+  | "c05.print" :: tn :: o :: r :: hc :: hs :: bc :: bs :: dump => do
+    let st ← parseStyle o r hc hs bc bs
+    let sch ← schemaOf tn
+    let (vals, tail) ← splitDump dump
+    some (okCps (printRec sch st vals tail))
+  | ["c05.parse", tn, o, r, rt, text] => do
+    let o ← kv "o" o >>= parseOptName
+    let r ← kv "r" r >>= parseBool
+    let rt ← kv "rt" rt >>= parseOptName
+    let text ← parseCps text
+    let tn : Option String := if tn = "-" then none else some tn
+    some (match fromTextRdata tn { origin := o, relativize := r, relTo := rt } text with
+      | some (.known vals tail) => "ok k " ++ showDump vals tail
+      | some (.generic d) => "ok g " ++ toHexP d
+      | none => "err")
+  | ["c05.wire.dec", tn, o, w] => do
+    let o ← kv "o" o >>= parseOptName
+    let w ← ofHex w
+    let sch ← schemaOf tn
+    some (match decRec tn sch w o with
+      | some (vals, tail) => "ok " ++ showDump vals tail
+      | none => "err")
   | _ => none
 
 end Driver
